@@ -59,6 +59,10 @@ MOTIFS = {
     "verma": {"di": [("a", "b"), ("b", "c"), ("c", "d")], "bi": [("b", "d")]},
     "iv": {"di": [("a", "b"), ("b", "c")], "bi": [("b", "c")]},
     "m": {"di": [("a", "c"), ("b", "c"), ("c", "d")], "bi": [("a", "b"), ("a", "d")]},
+    # napkin followed by a two-node final district: ID goes line 7 -> line 2 -> line 6 on {d, e}
+    "napkin_ext": {"di": [("a", "b"), ("b", "c"), ("c", "d"), ("d", "e")], "bi": [("a", "c"), ("a", "e"), ("d", "e")]},
+    # two nested line-7 steps
+    "double7": {"di": [("a", "b"), ("b", "c"), ("c", "d"), ("d", "e")], "bi": [("a", "c"), ("a", "e"), ("b", "d")]},
 }
 
 
